@@ -126,6 +126,14 @@ func vServerSession(tok, payload []byte, key [4]byte) []byte {
 		return vSessProblem(obs, "bad-close-accepted")
 	}
 	obs = append(obs, cconn.out...)
+	// the application's own reusable output buffer (capacity = a pool size class) sent on the
+	// server side: it stays the application's, whatever other sessions do with the pools
+	own := make([]byte, 128)
+	for i := range own {
+		own[i] = payload[i%len(payload)]
+	}
+	sconn := &vRecW{}
+	wsutil.WriteServerMessage(sconn, ws.OpBinary, own)
 	// and a client-side masked write of a pooled size right afterwards
 	out := &vRecW{}
 	msg := append(bytes.Repeat([]byte{'m'}, 99), payload[1])
@@ -139,6 +147,11 @@ func vServerSession(tok, payload []byte, key [4]byte) []byte {
 	// handshake results are looked at LAST, after the pooled buffers have been through other
 	// hands (engine: their content is arbitrary from here on; natively: recycled and scribbled)
 	vPoisonPools()
+	for i := range own {
+		if vConcrete(vIte(own[i] == payload[i%len(payload)], 1, 0)) != 1 {
+			return vSessProblem(obs, "own-buffer-clobbered")
+		}
+	}
 	obs = append(obs, hs.Protocol...)
 	obs = append(obs, hs2.Protocol...)
 	obs = append(obs, hs2.Extensions[0].Name...)
